@@ -234,6 +234,13 @@ class Poll(BasePoller):
     def _updateRegistration(self, fd):
         fileno = fd.fileno() if not isinstance(fd, int) else fd
 
+        if fileno < 0:
+            # closed: forget the number(s) it is still registered under
+            for key in [k for k, v in self._map.items() if v == fd]:
+                with contextlib.suppress(KeyError):
+                    self._poller.unregister(key)
+                del self._map[key]
+
         with contextlib.suppress(KeyError, ValueError):
             self._poller.unregister(fileno)
 
